@@ -666,21 +666,35 @@ func (e *Exec) runFrom(st *State, fr *Frame, blk *ssa.BasicBlock) []PathRes {
 	return done
 }
 
-// runDefers runs all pending deferred calls of fr (LIFO). Returns resulting states.
+// runDefers runs all pending deferred calls of fr (LIFO). Returns resulting states. While a panic is propagating
+// (st.panicVal set) each deferred call runs with the panic parked in st.pending, where recover() can take it; code
+// called by the deferred function therefore executes normally.
 func (e *Exec) runDefers(st *State, fr *Frame) []*State {
 	if len(fr.defers) == 0 {
 		return []*State{st}
 	}
 	d := fr.defers[len(fr.defers)-1]
 	fr.defers = fr.defers[:len(fr.defers)-1]
+	panicking := st.panicVal != nil
+	msg := st.panicMsg
+	if panicking {
+		st.pending = st.panicVal
+		st.panicVal = nil
+	}
 	var out []*State
 	for _, o := range e.callValue(st, d.fn, d.args, fr.depth+1) {
-		f2 := fr
-		if len(out) > 0 {
-			f2 = fr.fork()
+		s2 := o.st
+		if o.panicked {
+			// a panic inside the deferred call replaces the one being handled
+			s2.pending = nil
+		} else if panicking {
+			if s2.pending != nil { // not recovered: keep propagating
+				s2.panicVal = s2.pending
+				s2.panicMsg = msg
+				s2.pending = nil
+			}
 		}
-		// a panic inside a deferred call replaces the current one (state already marked)
-		out = append(out, e.runDefers(o.st, f2.fork())...)
+		out = append(out, e.runDefers(s2, fr.fork())...)
 	}
 	return out
 }
